@@ -185,14 +185,14 @@ def _styled(sut: "SUT", name: str, required: list, optional: list):
     return fn(*[v for _, v in required], **dict(optional))
 
 
-def _detuning_map(sut: SUT, weights: dict):
+def _detuning_map(sut: SUT, weights: dict, slug=None):
     # a replay document stores the weights through JSON, which turns integer
     # qubit ids into strings: key them by the register's own ids again
     byid = {str(k): v for k, v in weights.items()}
     ids = list(sut.register.qubit_ids)
     if all(str(q) in byid for q in ids) and len(byid) == len(ids):
         weights = {q: byid[str(q)] for q in ids}
-    return sut.register.define_detuning_map(weights)
+    return sut.register.define_detuning_map(weights, slug) if slug is not None else sut.register.define_detuning_map(weights)
 
 
 def _do(sut: SUT, op: dict) -> Any:
@@ -204,7 +204,7 @@ def _do(sut: SUT, op: dict) -> Any:
         opt = [("initial_target", op["initial_target"])] if op.get("initial_target") is not None else []
         return _styled(sut, "declare_channel", [("name", op["name"]), ("channel_id", op["channel_id"])], opt)
     if k == "config_detuning_map":
-        return _styled(sut, "config_detuning_map", [("detuning_map", _detuning_map(sut, op["weights"])), ("dmm_id", op["dmm_id"])], [])
+        return _styled(sut, "config_detuning_map", [("detuning_map", _detuning_map(sut, op["weights"], op.get("slug"))), ("dmm_id", op["dmm_id"])], [])
     if k == "config_slm_mask":
         return _styled(sut, "config_slm_mask", [("qubits", op["qubits"])], [("dmm_id", op["dmm_id"])] if "dmm_id" in op else [])
     if k == "set_magnetic_field":
